@@ -6,7 +6,11 @@
 unset SCHEMATHESIS_VERIF
 OUT=$(mktemp -d /tmp/verif-baseline.XXXXXX)
 trap 'rm -rf "$OUT"' EXIT
-cd /repo || exit 2
+# BASELINE_REPO=<git worktree of /repo> runs the suite against that copy (its src first on PYTHONPATH) so
+# that /repo can be edited meanwhile; the default is /repo itself.
+REPO="${BASELINE_REPO:-/repo}"
+cd "$REPO" || exit 2
+if [ "$REPO" != "/repo" ]; then export PYTHONPATH="$REPO/src"; fi
 /venv/bin/python -m pytest -ra -q -p no:cacheprovider --timeout=900 --continue-on-collection-errors \
    --junitxml="$OUT/run.junit.xml" "$@" > "$OUT/log.txt" 2>&1
 tail -n 1 "$OUT/log.txt"
@@ -38,13 +42,13 @@ if missing and len(missing) <= 60:
         cls, name = tid.split("::", 1)
         parts = cls.split(".")
         for cut in range(len(parts), 0, -1):
-            path = os.path.join("/repo", *parts[:cut]) + ".py"
+            path = os.path.join(os.environ.get("BASELINE_REPO", "/repo"), *parts[:cut]) + ".py"
             if os.path.exists(path):
                 nodeids.append("::".join([path] + parts[cut:] + [name]))
                 break
     xml2 = os.path.join(out, "rerun.junit.xml")
     subprocess.run(["/venv/bin/python", "-m", "pytest", "-q", "-p", "no:cacheprovider", "--timeout=900",
-                    f"--junitxml={xml2}", *nodeids], cwd="/repo", stdout=subprocess.DEVNULL, stderr=subprocess.DEVNULL)
+                    f"--junitxml={xml2}", *nodeids], cwd=os.environ.get("BASELINE_REPO", "/repo"), stdout=subprocess.DEVNULL, stderr=subprocess.DEVNULL)
     if os.path.exists(xml2):
         p2, _ = parse(xml2)
         passed |= normalise(p2)
